@@ -50,6 +50,13 @@ def c07_specs():
         ],
     ))
     S.append(dict(
+        name="arg_named_like_module_constant",
+        params=[("k1", None), ("k2", None)],
+        vars=[("x", None), ("y", None)],
+        derived=[("d1", R.scaled, ["x", "k2"])],
+        reactions=[("v1", R.scaled, ["d1", "k1"], {"x": -1, "y": 1}), ("v2", R.mass_action_1s, ["y", "k2"], {"y": -1})],
+    ))
+    S.append(dict(
         name="untranslatable_reaction_keyerror",
         params=[("k1", None), ("k2", None)],
         vars=[("x", None), ("y", None)],
